@@ -88,7 +88,9 @@ def gen_traces(args):
         scale = 1.0
         if exact and (thr is None or thr_type == "relative"):
             scale = [1.0, 1.0, 1e-5, 3.7e-3, 0.25, 1e3][int(rng.integers(6))]
-        rec = H.Recorder(obj, name, X.astype(float) * scale, None if y is None else y.astype(float) * scale, unit / (scale * scale), exact)
+        # single-precision input now and then (small integers are exact in float32, so nothing changes for a correct selector)
+        xdt = np.float32 if (exact and scale == 1.0 and rng.random() < 0.2) else float
+        rec = H.Recorder(obj, name, (X.astype(float) * scale).astype(xdt), None if y is None else y.astype(float) * scale, unit / (scale * scale), exact)
         # chain of fits
         def pick(lo):
             f = int(rng.integers(3))
@@ -115,7 +117,7 @@ def gen_traces(args):
                 ok = rec.fit(nts2, warm=True, thr=thr, thr_type=thr_type, with_y=with_y, init=[])
             else:
                 ok = rec.fit(pick(len(init)), warm=False, thr=thr, thr_type=thr_type, with_y=with_y, init=init)
-        out.append({"id": "w%d-%d" % (wid, t), "n": int(N), "family": family, "cls": name, "tol": tol, "unit": unit, "scale": scale,
+        out.append({"id": "w%d-%d" % (wid, t), "n": int(N), "family": family, "cls": name, "tol": tol, "unit": unit, "scale": scale, "f32": bool(xdt is np.float32),
                     "kind": kind, "params": {k: (v.tolist() if isinstance(v, np.ndarray) else v) for k, v in kw.items()},
                     "X": X.tolist(), "y": None if y is None else np.asarray(y).tolist(),
                     "layer": rec.layer, "events": rec.events})
@@ -221,6 +223,8 @@ def reexecute(case):
     if isinstance(kw.get("initialize"), list):
         kw["initialize"] = list(kw["initialize"])
     X = np.asarray(case["X"], float) * case.get("scale", 1.0)
+    if case.get("f32"):
+        X = X.astype(np.float32)
     y = None if case["y"] is None else np.asarray(case["y"], float) * case.get("scale", 1.0)
     obj = cls(**kw)
     unit = case["unit"] / (case.get("scale", 1.0) ** 2) if case.get("scale", 1.0) != 1.0 else case["unit"]
